@@ -1,5 +1,5 @@
 """C01 — evaluation computes the stratified least model (engine R)."""
-from engine_r import corpus, req, rcheck
+from engine_r import corpus, req, rcheck, selfval
 
 PID = "C01"
 
@@ -7,7 +7,16 @@ PID = "C01"
 def run(tier, seed, only=None):
     cfgs = [req.Cfg("transformed-ram"), req.Cfg("initial-ram", ram="initial-ram")]
     jobs = [(c, cfgs) for c in corpus.corpus(tier)]
-    return rcheck.run_jobs(PID, tier, jobs, only=only,
+    res = rcheck.run_jobs(PID, tier, jobs, only=only,
                            what="For each corpus program, the RAM that the real souffle emits (before and after RAM optimisation) is "
                                 "executed symbolically over a symbolic fact database and z3 decides that every output relation equals "
                                 "the stratified least model computed by an independent reference, for every database in the bound.")
+    if not only:
+        v = selfval.validate(tier)
+        res.coverage["traces_validated_against_impl"] = v["validated"]
+        res.coverage["ram_semantics_validation"] = v
+        for name, kind, why in v["mismatches"]:
+            res.inconc("RAM-semantics validation: repo test %s: %s %s (executor disagrees with the suite's expected output)" % (name, kind, why))
+        if v["validated"] < 100:
+            res.inconc("RAM-semantics validation ran on only %d repo tests" % v["validated"])
+    return res
